@@ -9,9 +9,10 @@ import SqlfluffVerif.Driver.TreeSpec
 import SqlfluffVerif.Driver.Lexer
 import SqlfluffVerif.Driver.LexSpec
 import SqlfluffVerif.Driver.Slices
+import SqlfluffVerif.Driver.Exit
 open SqlfluffVerif SqlfluffVerif.Proto SqlfluffVerif.Driver
 
-def handlers : List (List String → Option String) := [handlePos, handlePatch, handleDedupe, handleNoqa, handleSelect, handleMR, handleTreeSpec, handleLexer, handleLexSpec, handleSlices]
+def handlers : List (List String → Option String) := [handlePos, handlePatch, handleDedupe, handleNoqa, handleSelect, handleMR, handleTreeSpec, handleLexer, handleLexSpec, handleSlices, handleExit]
 
 def handle (toks : List String) : String :=
   match toks with
